@@ -57,7 +57,8 @@ def build(ck):
     ck.trust('lemma:division-with-remainder (for n >= 1 every integer is q*n + r with 0 <= r < n)')
     ck.assume_note('C17: agreement of jax_healpy.ang2pix with healpy is out of reach (dependency): only the call wiring '
                    '(nside, theta, phi) and the range [0, 12 nside^2) are used')
-    ck.assume_note('C17: coverage is stated for samplings whose samples are all valid (index in [0, N)), as in the property')
+    ck.assume_note('C17: coverage is stated for arbitrary samplings: out-of-map samples (index -1) are accounted to the last '
+                   'pixel by the wrap-around of index -1 in .at[].add, so the total is the number of samples')
     ck.trust('lemma:double-counting (the multiplicities of the values of a finite array sum to its number of entries)',
              'lemma:sum-support (a finite sum whose terms vanish outside two known positions equals the sum of those two terms)')
 
@@ -280,8 +281,9 @@ def build(ck):
         hits = z3.Function('Hits', z3.IntSort(), z3.IntSort())       # Hits(w) = number of samples whose index is w
         w = fresh_int('w')
         S.assume(z3.ForAll([w], hits(w) >= 0, patterns=[hits(w)]))
-        # all samples valid: every occurring index lies in [0, N)
-        S.assume(z3.ForAll([w], z3.Implies(hits(w) > 0, z3.And(0 <= w, w < N)), patterns=[hits(w)]))
+        # arbitrary samplings: every sample's index is a pixel number in [0, N) or -1 (out of the map) — the post of
+        # pixel2index proved above (closed formula; in-map indices lie in 0..N-1)
+        S.assume(z3.ForAll([w], z3.Implies(hits(w) > 0, z3.And(-1 <= w, w < N)), patterns=[hits(w)]))
         theta, phi = object(), object()
         seen = {}
 
@@ -312,13 +314,23 @@ def build(ck):
         ug = U.ghost.get('unique')
         v = S.int('v')
         S.assume(z3.And(0 <= v, v < N))
+        S.inputs['hits_v'] = hits(v)
+        S.inputs['hits_outside'] = hits(-1)
         if ug is not None:
-            S.assume(IX.sum_support(U.elems, C.elems, U.length, cov.length, v, ug['Pos'](v), ug['Pos'](v)))
-        S.oblige('post', cov.elems[v] == hits(v), tag='coverage[v]-is-the-number-of-samples-with-index-v')
-        # total = number of samples: Σ_v coverage[v] = Σ_v Hits(v) over [0, N) ⊇ all occurring indices = nsamples
-        # (lemma double-counting); what is left to prove is that no hit falls outside the bins and none is dropped:
-        S.oblige('post', z3.ForAll([w], z3.Implies(hits(w) > 0, z3.And(0 <= w, w < to_z3(cov.length)))),
-                 tag='every-sample-falls-into-a-bin (total = number of samples by double counting)')
+            S.assume(IX.sum_support(U.elems, C.elems, U.length, cov.length, v, ug['Pos'](v), ug['Pos'](v - to_z3(cov.length))))
+        # where a truncating jnp.unique(size=N) shows: every pixel hit and one sample out of the map (N + 1 distinct values)
+        hint = z3.And(*[n == 1 for n in ns], v == 0, hits(0) == 2, hits(-1) == 1)
+        # histogram: exact for every pixel; the out-of-map samples (index -1) are accounted to the LAST pixel by the
+        # wrap-around of index -1 in .at[].add (dependency contract), so that no sample is lost
+        expect = hits(v) + z3.If(v == N - 1, hits(-1), 0)
+        S.oblige('post', cov.elems[v] == expect, hint=hint,
+                 tag='coverage[v]-is-the-number-of-samples-with-index-v (plus the out-of-map samples on the last pixel)')
+        S.oblige('post', cov.elems[v] >= hits(v), hint=hint, tag='coverage[v]-is-at-least-the-number-of-samples-with-index-v')
+        # total = number of samples: Σ_v coverage[v] = Σ_{w in [-1, N)} Hits(w) = nsamples by double counting, given the
+        # per-bin equality above and that no occurring index is dropped by the scatter-add:
+        nb = to_z3(cov.length)
+        S.oblige('post', z3.ForAll([w], z3.Implies(hits(w) > 0, z3.And(0 <= IX.nrm(w, nb), IX.nrm(w, nb) < nb))),
+                 tag='no-sample-is-dropped-by-the-scatter-add (total = number of samples by double counting)')
     ck.explore(f'{LS}.StokesLandscape.get_coverage', coverage, T)
 
 
